@@ -173,8 +173,8 @@ DepEdges(G) ==
             {<<G.rules[r].h, b[j]>> : j \in {j \in DOMAIN b : b[j] \notin T /\ SetOf(b) \subseteq gen}}
             : r \in DOMAIN G.rules}
 
-InsideExact(sr, G) == IsIntSR(sr) \/ ~HasCycle(SpanEdges(G))
-TreeSumExact(sr, G) == IsIntSR(sr) \/ ~HasCycle(DepEdges(G))
+InsideExact(sr, G) == IsFinSR(sr) \/ ~HasCycle(SpanEdges(G))
+TreeSumExact(sr, G) == IsFinSR(sr) \/ ~HasCycle(DepEdges(G))
 
 ---------------------------------------------------------------------------
 (* The weighted language up to a length bound, as a set of <<string, w>>.  *)
